@@ -294,7 +294,10 @@ impl Obj for TdObj {
         let _ = guarded(|| {
             t.insert_weighted(1e308, 10.0);
             t.insert_weighted(-1e308, 10.0);
-            let _ = t.count();
+            let _ = t.count(); // fuses +inf and -inf sums into a NaN centroid (small delta)
+            t.insert(1.0);
+            let _ = t.count(); // the next compression sorts by mean and panics on the NaN
+            t.insert(2.0);
             let _ = t.quantile(0.5);
         });
     }
